@@ -14,7 +14,7 @@ CONSTANTS
   AgeIsMax = FALSE
   MinObs = 1
   MaxT = 0
-  MaxOps = 5
+  MaxOps = 4
   OpSet = {"joinnoip", "leave", "respond", "claim", "measure", "analyze", "clear"}
   Lats = {0, 3}
   Sizes = {0, 4}
